@@ -889,8 +889,11 @@ func (e *Engine) evalLoc(env *Env, x ast.Expr) []Loc {
 			except := map[string]bool{}
 			for _, a := range x.Args {
 				t := e.resolveType(exprString(a), env.pkg)
-				if t == nil || !isStruct(t) {
-					env.fail("allbut: cannot resolve struct type %s", exprString(a))
+				if t == nil {
+					continue // type not loaded in this run: it has no heap arrays here
+				}
+				if !isStruct(t) {
+					env.fail("allbut: %s is not a struct type", exprString(a))
 				}
 				// only the type's own (non-struct) fields: heaps of nested struct types are shared with other owners
 				stt := t.Underlying().(*types.Struct)
